@@ -50,6 +50,22 @@ impl JoinState {
         if let JoinState::Running(handle) = state {
             #[cfg(may_verif)]
             may_queue::verif::point(may_queue::verif::site::SCOPE_JOIN_BEFORE, 0);
+            // the child may borrow from our stack, a cancel of the owner
+            // must not cut this wait short
+            let cancel = if crate::coroutine_impl::is_coroutine() {
+                Some(crate::coroutine_impl::current_cancel_data())
+            } else {
+                None
+            };
+            if let Some(c) = cancel {
+                c.disable_cancel();
+            }
+            while !handle.is_done() {
+                handle.wait();
+            }
+            if let Some(c) = cancel {
+                c.enable_cancel();
+            }
             let res = handle.join();
 
             // TODO: when panic happened, the logic need to refine
@@ -78,9 +94,11 @@ where
     let mut scope = Scope {
         dtors: RefCell::new(None),
     };
-    let ret = f(&scope);
+    // finish any unwinding first: joining the children may block, which
+    // must not happen while this thread is marked as panicking
+    let ret = panic::catch_unwind(panic::AssertUnwindSafe(|| f(&scope)));
     scope.drop_all();
-    ret
+    ret.unwrap_or_else(|e| panic::resume_unwind(e))
 }
 
 impl fmt::Debug for Scope<'_> {
